@@ -81,6 +81,8 @@ def instances(tier, seed):
         for b in range(len(HOOKSETS)):
             g = "core" if (tier == "thorough" or rng.random() < 0.5) else "ext"
             out.append((g, dict(kind="seq", hookA=a, hookB=b, ckA=rng.randrange(3), ckB=rng.randrange(3), nops=n)))
+    for a in range(len(HOOKSETS) - 1):
+        out.append(("core", dict(kind="seq", hookA=a, hookB=a, ckA=a % 3, ckB=a % 3, nops=n)))
     for opt in ("vfoo,typeguard.typechecked", "vfoo, vbar.baz ,beartype.beartype", "vfoobar,vfo,typeguard.typechecked",
                 "vfoo", ""):
         out.append(("core", dict(kind="pytest", option=opt)))
@@ -211,8 +213,11 @@ def scenario(inst, V):
         def uninstall(key, how):
             if key not in managers:
                 return
-            if how:
+            if how == 1:
                 managers.pop(key).uninstall()
+            elif how == 2:
+                # the with-block is left through an exception
+                managers.pop(key).__exit__(ValueError, ValueError("boom"), None)
             else:
                 managers.pop(key).__exit__(None, None, None)
             live[:] = [x for x in live if x[0] != key]
@@ -239,7 +244,7 @@ def scenario(inst, V):
         do_import("m1")
         u = V.choose("un", 3)
         if u:
-            uninstall("AB"[u - 1], V.choose("how", 2))
+            uninstall("AB"[u - 1], V.choose("how", 3))
         do_import("m2")
         if inst["nops"] > 5:
             r = V.choose("re", 3)
